@@ -26,6 +26,44 @@ fn gen_ascii(src: &mut Src, tier: Tier) -> Case {
     g.case
 }
 
+/// Sequences of single-character loops (the Loop1CharBody fast path both executors special-case),
+/// greedy and lazy, with finite and infinite bounds, separated by literals / groups / backrefs.
+fn gen_scm(src: &mut Src, tier: Tier) -> Case {
+    let fl = Fl::gen(src);
+    let alpha = gen_alphabet(src);
+    let cfg = GenCfg::full(fl, alpha.clone());
+    let n = 2 + src.below(4);
+    let mut items = vec![];
+    for _ in 0..n {
+        let body = match src.weighted(&[4, 3, 2, 2]) {
+            0 => Node::Lit(gen_char(src, &cfg)),
+            1 => Node::Dot,
+            2 => gen_class(src, &cfg),
+            _ => Node::Esc(*src.pick(b"dwsDWS")),
+        };
+        let (min, max) = *src.pick(&[(0, None), (1, None), (0, Some(1)), (1, Some(2)), (0, Some(2)), (2, Some(3)), (2, None), (1, Some(1)), (0, Some(3))]);
+        let q = Node::Quant { body: Box::new(body), min, max, lazy: src.chance(1, 2), braces: src.chance(1, 3) };
+        items.push(match src.weighted(&[6, 2, 1, 1]) {
+            0 => q,
+            1 => Node::Group { name: None, body: Box::new(q) },
+            2 => Node::Cat(vec![q, Node::BackRef(src.below(4))]),
+            _ => Node::Quant { body: Box::new(Node::NonCap(Box::new(q))), min: 0, max: Some(2), lazy: src.chance(1, 2), braces: false },
+        });
+        if src.chance(1, 3) {
+            items.push(Node::Lit(gen_char(src, &cfg)));
+        }
+    }
+    let mut node = Node::Cat(items);
+    if src.chance(1, 4) {
+        node = Node::Look { behind: true, neg: false, body: Box::new(node) };
+        node = Node::Cat(vec![Node::Dot, node]);
+    }
+    let pat = Printer::print(&node, fl.mode);
+    let hay = if src.chance(1, 2) { witness_hay(src, &node, fl, &alpha, 3) } else { gen_hay(src, &alpha, if tier == Tier::Quick { 10 } else { 14 }) };
+    let start = gen_start(src, &hay);
+    Case { pat, flags: fl.text(), hay, hay16: vec![], start, x: serde_json::Value::Null }
+}
+
 pub fn check(case: &Case, l: &mut Local) -> Verdict {
     let fl = Fl::parse(&case.flags);
     let t = tf(&case.pat);
@@ -92,14 +130,16 @@ pub fn check(case: &Case, l: &mut Local) -> Verdict {
 
 pub static V_GENERAL: Variant = Variant { name: "general", choice_len: 400, gen, check };
 pub static V_ASCII: Variant = Variant { name: "ascii_hay", choice_len: 400, gen: gen_ascii, check };
+pub static V_SCM: Variant = Variant { name: "single_char_loops", choice_len: 300, gen: gen_scm, check };
 
 pub fn variants() -> Vec<&'static Variant> {
-    vec![&V_GENERAL, &V_ASCII]
+    vec![&V_GENERAL, &V_ASCII, &V_SCM]
 }
 
 pub fn run(ctx: &Ctx) -> i32 {
-    ctx.run_variant(&V_GENERAL, ctx.scale(60_000, 1_500_000));
-    ctx.run_variant(&V_ASCII, ctx.scale(30_000, 500_000));
+    ctx.run_variant(&V_GENERAL, ctx.scale(600_000, 10_000_000));
+    ctx.run_variant(&V_ASCII, ctx.scale(300_000, 4_000_000));
+    ctx.run_variant(&V_SCM, ctx.scale(300_000, 4_000_000));
     ctx.finish(
         "exploration",
         "random ES patterns (valid by construction, all 24 flag sets, themed alphabets) x haystacks x start offsets; both pipelines (opt/no_opt), UTF-8 and (on ASCII haystacks) ASCII entry points; oracle = differential between the two executors on the same compiled program. Non-trivial = at least one match found and the pattern contains a split (alternation or quantifier); distinct by hash of (pattern, flags, haystack, start).",
